@@ -302,7 +302,7 @@ func main() {
 		var datas [][]byte
 		nulls := []bool{}
 		if strings.HasPrefix(ans, "ok ") {
-			b, _ := valgen.Marshal(p, t, v)
+			b, _ := vh.UnHex(ans[3:]) // the canonical bytes (map entries in sorted order): the op lines must not depend on Go's map iteration order
 			datas = append(datas, b)
 			nulls = append(nulls, false)
 			if r.Intn(4) == 0 && (t.IsScalar() || t.Name == "list" || t.Name == "set" || t.Name == "map") {
